@@ -1,5 +1,5 @@
 //@PROBE file=src/utils/clipping/bbox_own_areas.rs test=verif_probe_own_areas_c15 clauses=own_areas
-//@BOUND (a) every set of 1..=3 and 1200 pseudo-random sets of 4..=6 integer-coordinate axis-aligned boxes on a 12x12 grid (shared edges, identical and nested boxes included), exact share by unit-cell counting, tolerance 1e-3; (b) the same sets with every box given as its right-angle rotation (angle pi/2, sides swapped); (c) 600 pseudo-random sets of 2..=5 rotated boxes against a 160x160 point-sampling reference, tolerance 0.02, and the same sets with every box handed over after gen_vertices() and an in-place edit; all sets also reversed and rotated-left by one (order independence, tolerance 1e-4)
+//@BOUND (a) every set of 1..=3 and 1200 pseudo-random sets of 4..=6 integer-coordinate axis-aligned boxes on a 12x12 grid (shared edges, identical and nested boxes included), exact share by unit-cell counting, tolerance 1e-3; (b) the same sets with every box given as its right-angle rotation (angle pi/2, sides swapped); (c) 600 pseudo-random sets of 2..=5 rotated boxes against a 160x160 point-sampling reference, tolerance 0.02, and the same sets with every box handed over after gen_vertices() and an in-place edit; (d) 300 sets of 2..=4 parallel elongated boxes (one common angle per set, never a right angle; displaced along their long side) against the same reference; all sets also reversed and rotated-left by one (order independence, tolerance 1e-4)
 #[cfg(test)]
 mod verif_probe_own_areas_c15 {
     // Bounded stand-in for the contract of exclusively_owned_areas + exclusively_owned_areas_normalized_shares
@@ -21,6 +21,24 @@ mod verif_probe_own_areas_c15 {
         let u = dx * a.cos() + dy * a.sin();
         let v = -dx * a.sin() + dy * a.cos();
         u.abs() <= (b.aspect * b.height) as f64 / 2.0 && v.abs() <= b.height as f64 / 2.0
+    }
+
+    /// reference share of every box: the fraction of a 160x160 sample of its points that no other box of the set contains
+    fn sampled(boxes: &[Universal2DBox]) -> Vec<f64> {
+        let mut exp = vec![];
+        for (i, b) in boxes.iter().enumerate() {
+            let (hw, hh) = ((b.aspect * b.height) as f64 / 2.0, b.height as f64 / 2.0);
+            let a = b.angle.unwrap_or(0.0) as f64;
+            let (mut tot, mut own) = (0u32, 0u32);
+            for iu in 0..160 { for iv in 0..160 {
+                let u = -hw + (iu as f64 + 0.5) * hw / 80.0; let v = -hh + (iv as f64 + 0.5) * hh / 80.0;
+                let x = b.xc as f64 + u * a.cos() - v * a.sin(); let y = b.yc as f64 + u * a.sin() + v * a.cos();
+                tot += 1;
+                if !boxes.iter().enumerate().any(|(j, o)| j != i && inside(o, x, y)) { own += 1; }
+            } }
+            exp.push(own as f64 / tot as f64);
+        }
+        exp
     }
 
     fn common(boxes: &[Universal2DBox], exp: &[f64], tol: f64, what: &str) -> Result<(), String> {
@@ -84,19 +102,7 @@ mod verif_probe_own_areas_c15 {
                 let ang = (next() % 628) as f32 / 100.0 - 3.14; let asp = 0.4 + (next() % 20) as f32 / 10.0; let h = 3.0 + (next() % 90) as f32 / 10.0;
                 Universal2DBox::new(xc, yc, if next() % 4 == 0 { None } else { Some(ang) }, asp, h)
             }).collect();
-            let mut exp = vec![];
-            for (i, b) in boxes.iter().enumerate() {
-                let (hw, hh) = ((b.aspect * b.height) as f64 / 2.0, b.height as f64 / 2.0);
-                let a = b.angle.unwrap_or(0.0) as f64;
-                let (mut tot, mut own) = (0u32, 0u32);
-                for iu in 0..160 { for iv in 0..160 {
-                    let u = -hw + (iu as f64 + 0.5) * hw / 80.0; let v = -hh + (iv as f64 + 0.5) * hh / 80.0;
-                    let x = b.xc as f64 + u * a.cos() - v * a.sin(); let y = b.yc as f64 + u * a.sin() + v * a.cos();
-                    tot += 1;
-                    if !boxes.iter().enumerate().any(|(j, o)| j != i && inside(o, x, y)) { own += 1; }
-                } }
-                exp.push(own as f64 / tot as f64);
-            }
+            let exp = sampled(&boxes);
             if exp.iter().any(|e| *e > 0.05 && *e < 0.95) { nontrivial += 1; }
             cases += 1;
             // the same set, every rotated box handed over after gen_vertices() on ANOTHER geometry and an in-place edit: the shares follow the current fields
@@ -113,12 +119,34 @@ mod verif_probe_own_areas_c15 {
                 if failures.len() < 100000 { failures.push(format!("PROBE input: own-areas boxes(xc,yc,angle,aspect,height)={:?}: {}", boxes.iter().map(|b| (b.xc, b.yc, b.angle, b.aspect, b.height)).collect::<Vec<_>>(), e)); }
             }
         }
+        // parallel elongated boxes: one common angle per set, displaced mainly along their long side (so that the centres are far
+        // apart along the image axes although the boxes overlap), against the same point-sampling reference
+        for it in 0..300u64 {
+            let n = 2 + (next() % 3) as usize;
+            let _ = it;
+            let ang = (next() % 628) as f32 / 100.0 - 3.14 + 0.0037; // never a multiple of pi/2 (those are family (b))
+            let (h, asp) = (1.0 + (next() % 30) as f32 / 10.0, 3.0 + (next() % 50) as f32 / 10.0);
+            let long = h * asp;
+            let boxes: Vec<Universal2DBox> = (0..n).map(|k| {
+                // index-dependent factors keep the edge lines of different boxes apart (no two edges on one line)
+                let along = ((next() % 160) as f32 / 100.0 - 0.8) * long * (1.0 + 0.0131 * k as f32);
+                let across = ((next() % 120) as f32 / 100.0 - 0.6) * h + 0.0173 * (k as f32 + 1.0);
+                let (hk, ak) = (h * (0.6 + (next() % 80) as f32 / 100.0) * (1.0 + 0.0071 * k as f32), asp * (0.5 + (next() % 100) as f32 / 100.0));
+                Universal2DBox::new(40.0 + along * ang.cos() - across * ang.sin(), 40.0 + along * ang.sin() + across * ang.cos(), Some(ang), ak, hk)
+            }).collect();
+            let exp = sampled(&boxes);
+            if exp.iter().any(|e| *e > 0.05 && *e < 0.95) { nontrivial += 1; }
+            cases += 1;
+            if let Err(e) = common(&boxes, &exp, 0.02, "parallel elongated boxes, point sampling") {
+                if failures.len() < 100000 { failures.push(format!("PROBE input: own-areas boxes(xc,yc,angle,aspect,height)={:?} [parallel elongated boxes]: {}", boxes.iter().map(|b| (b.xc, b.yc, b.angle, b.aspect, b.height)).collect::<Vec<_>>(), e)); }
+            }
+        }
         let _ = std::panic::take_hook();
         eprintln!("PROBE cases={} nontrivial={}", cases, nontrivial);
         // one line per failure class (input family x violated clause) with its first inputs
         let mut classes: std::collections::BTreeMap<String, (usize, Vec<String>)> = std::collections::BTreeMap::new();
         for f in failures.iter() {
-            let fam = if f.contains("[boxes edited after gen_vertices()]") { "edited-after-gen-vertices" } else if f.contains("[the same boxes as right-angle rotations]") { "right-angle-rotations" } else if f.contains("[axis-aligned integer boxes") { "axis-aligned-integer" } else { "rotated-random" };
+            let fam = if f.contains("[boxes edited after gen_vertices()]") { "edited-after-gen-vertices" } else if f.contains("[the same boxes as right-angle rotations]") { "right-angle-rotations" } else if f.contains("[parallel elongated boxes]") { "parallel-elongated" } else if f.contains("[axis-aligned integer boxes") { "axis-aligned-integer" } else { "rotated-random" };
             let clause = f.split("own_areas.").nth(1).map(|r| r.split(|c: char| c == ':' || c == ' ').next().unwrap_or("?")).unwrap_or("?");
             let e = classes.entry(format!("{}/own_areas.{}", fam, clause)).or_insert((0, vec![]));
             e.0 += 1; if e.1.len() < 3 { e.1.push(f.clone()); }
